@@ -47,6 +47,9 @@ CHECKS = {
  "C11": ("exploration", "differential property test against io::Cursor over refimpl-encoded layer streams (exhaustive length sweep on scaled constants + random seek/read histories)",
          "Layer streams of every plaintext length (every residue modulo chunk and block on the scaled build, boundary windows on the production build) are encoded by an independent implementation of the format; the library's layer readers, stacked as mlar does, must return the same positions and bytes as an in-memory cursor for generated seek/read histories within [0, L].",
          "Trusts refimpl (anchored to FORMAT.md by a self-test on samples/archive_v1.mla), the aes-gcm / brotli / x25519-dalek / hkdf crates.", "DESIGN.md section 4 C11"),
+ "C15": ("exploration", "metamorphic measurement with a counting global allocator: generated (operation, layers, level, entropy, piece size, file count, interleaving) cases run at two data sizes (and two file counts) in dedicated worker processes",
+         "Peak live heap while writing, repairing and linearly extracting S and k*S bytes streamed from a generator into a counting sink must stay under 96 MiB and must not grow with the bytes streamed (peak(k*S) <= 1.25 peak(S) + 4 MiB); multiplying the number of files by 4 may cost at most 2 KiB per additional file.",
+         "Quick tier compares 8 MiB with 64 MiB, thorough 64 MiB with 1 GiB; only heap allocations through the global allocator are seen.", "DESIGN.md section 4 C15"),
  "C16": ("exploration", "CLI property test in a snapshotted sandbox: generated member-name sets from a path grammar x extraction forms x output arguments, before/after filesystem snapshot as oracle",
          "`mlar extract` (built from the tree) runs inside a scratch sandbox; a recursive snapshot (path, type, size, SHA-256, link target) of everything outside the output directory, and the listing of the sandbox's parent, must be unchanged whatever the member names are ('..' chains, absolute paths into the sandbox, empty / 256-byte / unicode components, a symlink already present in the output directory); benign representable member sets must be extracted completely with exit status 0.",
          "Filesystem-imposed failures (256-byte components, NUL, prefix-related members) exclude a set from the completeness half only. Empty directories created through a pre-existing symlink of the output directory are counted, not reported (outside the statement's wording, DESIGN.md section 9).", "DESIGN.md section 4 C16"),
